@@ -2,6 +2,8 @@ package datetime
 
 import (
 	"context"
+	"math"
+	"time"
 
 	"github.com/MontFerret/ferret/pkg/runtime/core"
 	"github.com/MontFerret/ferret/pkg/runtime/values"
@@ -49,30 +51,58 @@ func DateDiff(_ context.Context, args ...core.Value) (core.Value, error) {
 		return values.NewInt(0), nil
 	}
 
-	var nsecDiff int64
+	// The later instant minus the earlier one, as whole seconds plus the
+	// nanoseconds within the second. Time.Sub is not used here: a Duration
+	// saturates at about 292 years.
+	later, earlier := date2.Time, date1.Time
 
 	if date1.After(date2.Time) {
-		nsecDiff = date1.Time.Sub(date2.Time).Nanoseconds()
-	} else {
-		nsecDiff = date2.Time.Sub(date1.Time).Nanoseconds()
+		later, earlier = date1.Time, date2.Time
 	}
 
-	unitDiff, err := nsecToUnit(float64(nsecDiff), unit.String())
+	sec := later.Unix() - earlier.Unix()
+	nsec := int64(later.Nanosecond()) - int64(earlier.Nanosecond())
+
+	if nsec < 0 {
+		sec--
+		nsec += int64(time.Second)
+	}
+
+	u, err := UnitFromString(unit.String())
 	if err != nil {
 		return values.None, err
 	}
 
 	if !isFloat {
-		return values.NewInt(int(unitDiff)), nil
+		return values.NewInt(int(wholeUnits(sec, nsec, int64(u.Nanosecond())))), nil
 	}
 
-	return values.NewFloat(unitDiff), nil
+	return values.NewFloat(toNanoseconds(sec, nsec) / u.Nanosecond()), nil
 }
 
-func nsecToUnit(nsec float64, unit string) (float64, error) {
-	u, err := UnitFromString(unit)
-	if err != nil {
-		return -1, err
+// wholeUnits returns how many whole units of unitNsec nanoseconds fit into
+// sec seconds and nsec nanoseconds (0 <= nsec < 1e9). It is computed from the
+// two parts in integer arithmetic, so it is exact for any two dates. Every
+// unit is either a whole number of seconds or divides a second.
+func wholeUnits(sec, nsec, unitNsec int64) int64 {
+	const second = int64(time.Second)
+
+	if unitNsec >= second {
+		return sec / (unitNsec / second)
 	}
-	return nsec / u.Nanosecond(), nil
+
+	return sec*(second/unitNsec) + nsec/unitNsec
+}
+
+// toNanoseconds returns sec seconds and nsec nanoseconds as a float64 number of
+// nanoseconds.
+func toNanoseconds(sec, nsec int64) float64 {
+	const second = int64(time.Second)
+
+	if sec < math.MaxInt64/second {
+		// fits into an int64: converted (and rounded) once
+		return float64(sec*second + nsec)
+	}
+
+	return float64(sec)*float64(second) + float64(nsec)
 }
